@@ -493,7 +493,7 @@ def check_vtable_calls(P, ctx):
                     if src is None:
                         continue
                     nsites += 1
-                    g = g or P.cfg(fn)
+                    g = g or P.cfg(fn, lower_ternary=True)
                     node = [n for n in g.live() if n['expr'] is not None and n['line'] == s_['line'] and any(x is c or x == c for x in ir.calls(n['expr']))]
                     if not node:
                         continue
